@@ -1,5 +1,6 @@
 import Driver.Util
 import Lattigo.Model.Bootstrap
+import Lattigo.Model.BootstrapDefaults
 
 /-!
   C18 line protocol (all arguments `key=value`):
@@ -18,6 +19,8 @@ import Lattigo.Model.Bootstrap
   * `scaleconst q0= evalmod= ratio= logscale= k= ci=` → `round(log2 Q0),-log2 qDiv,log2 ScalingFactor,log2 StCScaling,C2SScaling num/den`
   * `scaledown qs= logscale= ratio= level=` → `level,scaleUpBigint,product of rescaled primes` or `err` (`Evaluator.ScaleDown`)
   * `dft_layers enc= logSlots= [logN= repack= bitrev=]` → the fully split factorisation: per matrix `diag:codes;…` (codes: exponent of ζ, 4n = zero), matrices joined by `/`
+  * `default_list list=`, `default_literal list= idx=`, `default_source list= idx=`, `default_announced list= idx=` →
+    the table of shipped default parameter sets (`Lattigo/Model/BootstrapDefaults.lean`)
   * `mod1_gain da= inv= logs=` → log2 of the gain of `EvaluateAndScaleNew(ct, 2^logs)` over `EvaluateNew(ct)`
   * `stages res= s2c= c2s= m1= rsv=` → levels after ModUp, CoeffsToSlots, EvalMod, SlotsToCoeffs
   * `output res= s2c= c2s= m1= rsv= iter= logscale=` → `level,scale`
@@ -158,6 +161,28 @@ def handle (toks : List String) : String :=
         ";".intercalate ((M.map fun iv => (iv.1, toString iv.1 ++ ":" ++ showVec ((List.range len).map fun x => code (iv.2 x)))).toArray.qsort
           (fun x y => x.1 < y.1) |>.toList.map (·.2))
       "/".intercalate mats
+    | _, _ => badOp
+  | "default_list" :: rest =>
+    match kv? rest "list" with
+    | some l => toString (shippedListLength l)
+    | none => badOp
+  | "default_literal" :: rest =>
+    match kv? rest "list", natArg rest "idx" with
+    | some l, some i => match shippedDefault? l i with
+      | some d => d.literal
+      | none => "none"
+    | _, _ => badOp
+  | "default_source" :: rest =>
+    match kv? rest "list", natArg rest "idx" with
+    | some l, some i => match shippedDefault? l i with
+      | some d => d.name ++ ";" ++ toString d.announcedTenths ++ ";" ++ d.literal
+      | none => "none"
+    | _, _ => badOp
+  | "default_announced" :: rest =>
+    match kv? rest "list", natArg rest "idx" with
+    | some l, some i => match shippedDefault? l i with
+      | some d => toString d.announcedTenths
+      | none => "none"
     | _, _ => badOp
   | "mod1_gain" :: rest =>
     match natArg rest "da", natArg rest "inv", (kv? rest "logs").bind parseInt? with
